@@ -7,6 +7,14 @@ props = [json.loads(l) for l in open(os.path.join(ROOT, 'properties.jsonl'))]
 TECH = "bounded symbolic execution of the unmodified bycycle source over a numpy/pandas model; z3 decides every path and obligation; counterexamples replayed on the real libraries"
 
 CHECKS = {
+ 'C02': dict(
+   text="Raw samples, the band-passed samples (arbitrary filter output) and the boundary are z3 variables; all feasible paths of the real find_extrema are executed for every padded length up to the bound and every reported extremum is proved to be the first raw-signal extreme of its closed half-wave window, nothing else being reported; boundary and first_extrema rules included.",
+   note="Trusted: numpy model (witness-validated on real numpy each run), stub contracts for filter_signal / compute_filter_length (arbitrary output of len(sig); ValueError when both or neither of n_cycles/n_seconds). Bound: padded length <= 8 (quick) / 10 (thorough). Real FIR numerics are not encoded.",
+   ref="4 C02"),
+ 'C03': dict(
+   text="Samples are unbounded z3 reals and the alternating extrema positions z3 integers; all feasible paths of the real find_zerox are executed and every midpoint is proved equal to the floor-median of the half-height crossings (centre for inverted / all-zero flanks), with count and temporal pairing.",
+   note="Trusted: numpy model (witness-validated), real arithmetic for (a+b)/2. Bound: N <= 7 (quick) / 9 (thorough).",
+   ref="4 C03"),
  'C08': dict(
    text="Every boolean array up to the stated length and every integer min_n_cycles >= 0 are z3 variables; all feasible paths of the real check_min_burst_cycles are executed and the run-length formula, no-False-to-True and idempotence are proved (unsat) on each.",
    note="Trusted: the list-backed numpy model (validated per run by replaying path witnesses on real numpy); z3. Bound: length <= 10 (quick) / 13 (thorough).",
